@@ -150,6 +150,10 @@ Arguments Panic {A} where_.
 Definition bind {A B} (r : res A) (f : A -> res B) : res B :=
   match r with Ok a => f a | Err e => Err e | Panic w => Panic w end.
 
+Notation "x <- a ;; b" := (bind a (fun x => b)) (at level 61, a at next level, right associativity).
+Notation "' p <- a ;; b" := (bind a (fun x => let p := x in b))
+  (at level 61, p pattern, a at next level, right associativity).
+
 (* ---- oracles for float / duration conversion: finite tables filled from Go *)
 Record oracles := {
   or_float : list (N * str * (str + str));      (* (bits, text) -> canonical text | error message *)
